@@ -1,6 +1,6 @@
 (* C19 — cross-codec conversion and trimming preserve the underlying bases. *)
 From Coq Require Import List NArith Bool Arith.
-From BioSeq Require Import Bits Codec SeqModel SeqProofs SeqProofs2 IupacProofs.
+From BioSeq Require Import Bits Codec SeqModel SeqProofs SeqProofs2 IupacProofs History.
 Import ListNotations.
 
 (* trimming parses the span between the first and the last acceptable byte (definitionally) ... *)
@@ -28,6 +28,16 @@ Theorem C19_trim_all_bad_is_empty : forall (C : codec) (v : list N),
   Forall (fun b => try_ascii C b = None) v -> trim C v = inl [].
 Proof. exact trim_all_bad. Qed.
 
+(* conversion of a sequence or slice to another codec is the symbol conversion applied position
+   by position: same length; that the converted symbol displays as the same letter is a table fact
+   re-proved on every run (Dna -> Iupac, Dna -> text) *)
+Theorem C19_conversion_is_map : forall (C : codec), codec_ok C ->
+  forall (f : N -> res N) (g : N -> N) (B' : nat) (xs : list N),
+  Forall (smallc C) xs -> canonl C xs -> (forall x, In x xs -> f x = Some (g x)) ->
+  convert C f B' (encode (c_bits C) xs) = Some (encode B' (map g xs)).
+Proof. exact convert_spec. Qed.
+
 Print Assumptions C19_trim_is_parse_of_span.
 Print Assumptions C19_trim_strips_ends.
 Print Assumptions C19_trim_all_bad_is_empty.
+Print Assumptions C19_conversion_is_map.
